@@ -13,7 +13,7 @@
      header value must be str (str subclasses are sent raw), anything else raises TypeError;
      json= -> Content-Type application/json; files= -> multipart/form-data; data=dict -> form-urlencoded;
      data=bytes -> raw content WITHOUT a Content-Type.
-   The defects of the unchanged tree are kept (F04a..F04g).  No proofs in this file. *)
+   The defects of the unchanged tree are kept (F04a..F04h).  No proofs in this file. *)
 From PG Require Import Lib.Strs.
 From PG Require Export Gen.T_C04.
 
@@ -209,6 +209,27 @@ Fixpoint path_vars (p : list seg) : list str :=
   | Lit _ :: r => path_vars r
   | Var v :: r => v :: path_vars r
   end.
+
+(* path segments: what a server's router sees.  [segments] splits the (decoded) path at '/';
+   [segs_tok] is the intended segmentation: template literals are split at '/', a parameter value is
+   ONE piece of a segment whatever characters it contains *)
+Definition slash : N := 47.
+Fixpoint split_acc (acc s : str) : list str :=
+  match s with
+  | [] => [acc]
+  | c :: r => if c =? slash then acc :: split_acc [] r else split_acc (acc ++ [c]) r
+  end.
+Definition segments (s : str) : list str := split_acc [] s.
+
+Inductive tok := TSep | TCh (c : N) | TAtom (s : str).
+Fixpoint segs_tok (acc : str) (l : list tok) : list str :=
+  match l with
+  | [] => [acc]
+  | TSep :: r => acc :: segs_tok [] r
+  | TCh c :: r => segs_tok (acc ++ [c]) r
+  | TAtom s :: r => segs_tok (acc ++ s) r
+  end.
+Definition toks_of_lit (t : str) : list tok := map (fun c => if c =? slash then TSep else TCh c) t.
 
 Definition env := list (str * pyval).
 Definition env_get (e : env) (x : str) : pyval := match alookup x e with Some v => v | None => PNone end.
@@ -481,6 +502,18 @@ Section Wire.
                                          end
                               end) (o_path o)).
 
+  Definition spec_toks (o : op) (a : args) : option (list tok) :=
+    option_map (@concat tok)
+      (opt_all (map (fun s => match s with
+                              | Lit t => Some (toks_of_lit t)
+                              | Var v => match arg_of (a_params a) Path v with
+                                         | Some (Sc s) => Some [TAtom (wire s)]
+                                         | _ => None
+                                         end
+                              end) (o_path o))).
+  Definition spec_segments (o : op) (a : args) : option (list str) :=
+    option_map (segs_tok []) (spec_toks o a).
+
   Definition spec_body (a : args) : option str * bobs :=
     match a_body a with
     | None => (@None str, ONone)
@@ -496,6 +529,7 @@ Section Wire.
   Definition Spec (o : op) (a : args) (r : request) : Prop :=
     r_method r = o_method o
     /\ Some (r_path r) = spec_path o a
+    /\ Some (segments (r_path r)) = spec_segments o a      (* each value stays inside its own segment *)
     /\ (forall n, values_at n (r_query r) = expected o a Query n)
     /\ (forall n, values_at n (r_headers r) = expected o a Header n)
     /\ (forall n, values_at n (r_cookies r) = expected o a Cookie n)
@@ -614,8 +648,17 @@ Section Wire.
          | _ => true
          end.
 
+  (* F04h: a path value containing '/' is interpolated unescaped and becomes several segments
+     ('?', '#', '%' are not escaped either; those change httpx's URL parsing and are outside the model) *)
+  Definition no_slash (s : str) : bool := forallb (fun c => negb (c =? slash)) s.
+  Definition guard_F04h (o : op) (a : args) : bool :=
+    forallb (fun k => match k with
+                      | (Path, _, Sc s) => no_slash (wire s)
+                      | _ => true
+                      end) (a_params a).
+
   Definition guards (o : op) (a : args) : list bool :=
     [guard_F04a o a; guard_F04b o a; guard_F04c o a; guard_F04d o a; guard_F04e o a; guard_F04f o a;
-     guard_F04g o a].
+     guard_F04g o a; guard_F04h o a].
   Definition guard (o : op) (a : args) : bool := forallb (fun b => b) (guards o a).
 End Wire.
